@@ -10,10 +10,14 @@ import (
 	"verifharness/engines/c10"
 	"verifharness/engines/c14"
 	"verifharness/engines/c15"
+	"verifharness/engines/pipe"
 	"verifharness/gen"
 )
 
 var engines = map[string]func(*gen.Ctx) error{
+	"c03": pipe.RunAs("C03"),
+	"c07": pipe.RunAs("C07"),
+	"c09": pipe.RunAs("C09"),
 	"c08": c08.Run,
 	"c10": c10.Run,
 	"c14": c14.Run,
